@@ -284,8 +284,22 @@ def gen_patch(rng, model, params, world_labels, ids, allow_cf=True, in_data=Fals
     for k in range(n):
         r = rng.random()
         if in_data:
-            nb = rng.randint(1, 6)
-            lines.append({"raw": ".byte " + ", ".join(str(rng.getrandbits(8)) for _ in range(nb))})
+            r2 = rng.random()
+            if r2 < 0.6:
+                nb = rng.randint(1, 6)
+                lines.append({"raw": ".byte " + ", ".join(str(rng.getrandbits(8)) for _ in range(nb))})
+            elif r2 < 0.7:
+                lines.append({"raw": '.string "s%d"' % rng.randint(0, 99)})
+            elif r2 < 0.8:
+                # (.uleb128 with a constant is refused by the assembler:
+                # UnsupportedAssemblyError, a documented limitation)
+                lines.append({"raw": '.ascii "a%d"' % rng.randint(0, 99)})
+            elif r2 < 0.9:
+                lines.append({"raw": ".zero %d" % rng.randint(1, 5)})
+            elif world_labels["all"] and isa != "arm64":
+                lines.append({"raw": (".quad " if isa == "x64" else ".long ") + rng.choice(world_labels["all"])})
+            else:
+                lines.append({"raw": ".byte 1"})
             continue
         if r < 0.45:
             v = rng.choice(["nop", "push", "pop", "movi", "xor"]) if isa != "arm64" else rng.choice(["nop", "movi"])
